@@ -1206,7 +1206,9 @@ def fragment_data_dict(dd, chunk_size):
     # generate chunks with given chunk size
     chunks_dict = collections.defaultdict(list)
     for chrname in ndd.keys():
-        positions = sorted(ndd[chrname])
+        # Sites may or may not carry additional_info (None cannot be compared
+        # with a string), so sort on position first and then on the info.
+        positions = sorted(ndd[chrname], key=lambda pi: (pi[0], pi[1] is not None, pi[1] or ''))
         end = chunk_size
         chunk_index = 0
         chunks_dict[chrname].append([])
